@@ -448,6 +448,10 @@ class Gen:
             br.append(t)
         if r.random() < 0.5 and "prim:null" not in used:
             br.insert(r.randint(0, len(br)), {"k": "prim", "name": "null"})
+        errs = [full for full, d in self.defs.items() if d.get("error") and full not in self.open and "named:" + full not in used
+                and not (d["ns"] == "" and ns != "")]
+        if errs and r.random() < 0.5:
+            br.append({"k": "ref", "full": r.choice(errs)})     # an "error" record referred to by name (after everything defined here)
         return {"k": "union", "br": br}
 
     def union_key(self, t):
@@ -542,7 +546,7 @@ class Gen:
                 return d
             if t.get("ult"):
                 return {"type": t["name"], "logicalType": t["ult"], "maxLength": 7}
-            return t["name"] if (plain or r.random() < (0.65 if in_union else 0.85)) else {"type": t["name"]}
+            return t["name"] if (plain or r.random() < ((0.5 if t["name"] in ("double", "null") else 0.65) if in_union else 0.85)) else {"type": t["name"]}
         if k == "ref":
             tns = self.defs[t["full"]]["ns"]
             if tns == ns and tns != "" and r.random() < 0.6:
@@ -742,6 +746,9 @@ class Gen:
             b = t["br"][i]
             rb = self.resolve(b)
             v = self.datum(b, depth + 1, hints, omit)
+            if rb["k"] == "prim" and rb["name"] in ("long", "double") and "lt" not in rb and r.random() < 0.3 and \
+                    any(self.resolve(x)["k"] == "prim" and self.resolve(x)["name"] == "int" for x in t["br"][:i]):
+                v = r.choice([2 ** 31, -2 ** 31 - 1])            # just outside int: the int branch ahead must not take it
             if hints and r.random() < 0.25:
                 nm = rb["full"] if rb["k"] in ("record", "enum", "fixed") else (rb["name"] if rb["k"] == "prim" else rb["k"])
                 return (nm, v)
